@@ -378,3 +378,8 @@ PROPS["C04"].update({
         " ECI designators, FNC1 / reader programming / structured append codewords inside the data, C40 runs whose last triple is padded with shift values."),
     "technique": "Lean 4 theorem over a hand-written decoder model and an independent reference builder (segment lemmas per mode, induction over the script) + model/implementation correspondence on builder-generated streams",
 })
+
+PROPS["C01"]["explanation"] += (" x12_roundtrip: the same for a message planned entirely in X12 (latch at the start, stay there), including the three end-of-data forms x12::encode chooses between from the space left"
+    " in the symbol (run ends with the symbol; single trailing ASCII codeword without UNLATCH; UNLATCH + rest in ASCII + padding). For arbitrary injected plans the round trip does not hold"
+    " (a switch planned inside the last two characters of an X12 run leaves a stale latch after set_ascii_until_end; shown by evaluating the models, DESIGN.md 0.6), so the data-level theorems are stated per plan shape.")
+PROPS["C01"]["unproved"] = ["encode_conformant for C40, Text, EDIFACT, Base256 and for mixed plans produced by the optimiser (proved: ascii_roundtrip, x12_roundtrip)"]
